@@ -6,7 +6,9 @@
              size = bytes of a complete encoding; loaded = what a fresh Load of the main path
              returned afterwards: "new" | "old" | "error" | "other"
      "crash" a process died while saving: the temp file holds the first tmplen bytes of the new
-             encoding next to the main file; loaded as above                                   *)
+             encoding next to the main file; loaded as above
+     "commit" the application committed block h while the state file on disk was at height
+             `saved`; retain = the RetainHeight its Commit answered                            *)
 EXTENDS Integers, Sequences, FiniteSets, SequencesExt, TLC, Json
 CONSTANT TraceFile
 Trace == ndJsonDeserialize(TraceFile)
@@ -18,14 +20,19 @@ C13_FileIntact(line) ==
     CASE line.k = "save"  -> (line.err => line.loaded = "old") /\ ((~line.err) => line.loaded = "new")
       [] line.k = "crash" -> line.loaded = "old"
       [] OTHER -> TRUE
+C13_BlocksKept(line) ==
+    CASE line.k = "commit" -> line.retain <= line.saved + 1
+      [] OTHER -> TRUE
 (* pass B: PersistFile!WriteFail happens exactly when the limit is below the encoding size *)
 Conforms(line) ==
     CASE line.k = "save" -> (line.err <=> line.limit < line.size)
+      [] line.k = "commit" -> line.retain = 0          \* PersistFile!RetainOf with RetainRule = "zero"
       [] OTHER -> TRUE
 
 TInit == l = 1 /\ viol = {} /\ drift = {}
 TNext == /\ l <= Len(Trace) /\ l' = l + 1
          /\ viol' = viol \cup (IF C13_FileIntact(Trace[l]) THEN {} ELSE {<<l, "C13_FileIntact">>})
+                        \cup (IF C13_BlocksKept(Trace[l]) THEN {} ELSE {<<l, "C13_BlocksKept">>})
          /\ drift' = drift \cup (IF Conforms(Trace[l]) THEN {} ELSE {l})
 TSpec == TInit /\ [][TNext]_tvars
 Done == l <= Len(Trace) \/
